@@ -340,7 +340,10 @@ class SimConnection(object):
         state = obj.__getstate__()
         if isinstance(state, tuple) and len(state) == 1 and \
                 self._inlined is not None and \
-                getattr(obj, "_firstbucket", None) is not None:
+                getattr(obj, "_firstbucket", None) is not None and \
+                obj._firstbucket._p_oid is None:
+            # (only a leaf that has no oid *now* is the known finding; one
+            # that already has a record must never be inlined at all)
             self._inlined.append((obj, obj._firstbucket))
         p.dump(state)
         return f.getvalue()
@@ -350,7 +353,13 @@ class SimConnection(object):
         transaction is aborted and ConflictError propagates."""
         st = self.storage
         txn = st.tpc_begin()
-        work = list(self.registered)
+        # Registered objects are written in oid order (ZODB: registration
+        # order; only the oids handed to newly reachable objects depend on
+        # it).  A fixed order makes the oids assigned in one commit a
+        # function of the set of changed objects, whatever order the C or
+        # the Python implementation announced them in.
+        work = sorted(self.registered,
+                      key=lambda o: o._p_oid or b"\xff" * 8)
         seen = set()
         written = []
         self._inlined = []
